@@ -11,7 +11,7 @@ PAST = st.fixed_dictionaries({
 
 
 def wcs_specs(projs=('TAN', 'SIN', 'CAR'), frames=('icrs', 'fk5', 'fk4',
-                                                    'galactic'),
+                                                    'galactic', 'fk5_j1975'),
               scale=(0.01 / 3600.0, 0.1), parities=(-1, 1), max_lat=85.0,
               past=True):
     lo, hi = math.log10(scale[0]), math.log10(scale[1])
